@@ -138,6 +138,50 @@ def _sincos(a):
     return None
 
 
+def _angle_of_heavy_eigenvector(a0):
+    """alpha_h before normalisation must equal alpha modulo pi for EVERY matrix the diagonalisation contract allows:
+    ZH = diag(s0, s1) [[-sin a, cos a], [cos a, sin a]] with arbitrary signs s0, s1 (rows are eigenvectors up to sign).
+    atan2(y, x) / atan(y/x) qualify iff y/x == tan(alpha) identically after that substitution; a single-component
+    inverse function (asin, acos) does not: its value changes with the sign the eigen-solver happens to return."""
+    S, Cc = Poly.atom(("sym", "sin_a")), Poly.atom(("sym", "cos_a"))
+    s0, s1 = Poly.atom(("sym", "sigma0")), Poly.atom(("sym", "sigma1"))
+    entry = {(0, 0): -(s0 * S), (0, 1): s0 * Cc, (1, 0): s1 * Cc, (1, 1): s1 * S}
+
+    def atomize(t):
+        if t[0] == "elem" and t[1][0] == "field" and t[1][2] == "ZH" and len(t) == 4 and t[2][0] == "num" and t[3][0] == "num":
+            return Rat(entry[(int(t[2][1]), int(t[3][1]))])
+        return None
+
+    def sigma_reduce(p):
+        out = Poly()
+        for m, c in p.t.items():
+            mono = tuple((a, (e % 2 if a in (("sym", "sigma0"), ("sym", "sigma1")) else e)) for a, e in m)
+            mono = tuple(x for x in mono if x[1])
+            out = out + Poly({mono: c})
+        return out
+
+    if a0[0] != "call":
+        return False, "alpha_h is not an inverse trigonometric function of ZH: %s" % show(a0)[:60]
+    fn = str(a0[1])
+    try:
+        if fn == "atan2" and len(a0[2]) == 2:
+            y, x = to_rat(a0[2][0], atomize), to_rat(a0[2][1], atomize)
+        elif fn == "atan" and len(a0[2]) == 1:
+            r = to_rat(a0[2][0], atomize)
+            y, x = Rat(r.n), Rat(r.d)
+        else:
+            return False, ("alpha_h = %s is computed from a single component of an eigenvector whose overall sign is "
+                           "arbitrary (the diagonalisation contract allows ZH -> diag(+-1, +-1) ZH): the reported angle "
+                           "changes with the sign the eigen-solver returns" % show(a0)[:50])
+        res = sigma_reduce(y.n * x.d * Cc - x.n * y.d * S)
+        if not res.is_zero():
+            return False, "tan(alpha_h) = (%s)/(%s) is not tan(alpha) for every sign convention of the eigenvectors" % (
+                show(a0[2][0])[:40], show(a0[2][-1])[:40])
+        return True, ""
+    except NotPolynomial as ex:
+        return False, str(ex)[:100]
+
+
 def run(F, R, tier):
     R.explanation = (
         "(R1) the THDM Higgs mass matrices equal the Hessian of the documented general 2HDM potential (plus "
@@ -302,8 +346,7 @@ def run(F, R, tier):
             ok, why = False, "no unshifted branch"
         else:
             a0 = a0[0]
-            ok = a0[0] == "call" and a0[1] == "asin" and "ZH" in show(a0) and "(1,1)" in show(a0).replace(" ", "")
-            why = "" if ok else "alpha_h is not asin(ZH(1,1)): %s" % show(a0)[:60]
+            ok, why = _angle_of_heavy_eigenvector(a0)
             bma = to_rat(_norm_getters(("-", ("call", CLS + "::get_beta", (TH,)), a0)))
             half_pi = Rat(Poly.atom(PI)) * Rat(Poly.const(Fraction(1, 2)))
             seen = set()
@@ -344,7 +387,8 @@ def run(F, R, tier):
                 ok, why = False, "shifts found: %s" % sorted(seen)
     except NotPolynomial as ex:
         ok, why = False, str(ex)[:100]
-    R.check("R7", ok, "get_alpha_h = asin(ZH(1,1)) -+ pi exactly when beta - alpha_h is below -pi/2 / above pi/2", F.loc(f),
+    R.check("R7", ok, "get_alpha_h = angle of the heavy CP-even eigenvector (independent of the eigenvector's arbitrary overall sign), "
+                      "-+ pi exactly when beta - alpha_h is below -pi/2 / above pi/2", F.loc(f),
             "the normalisation of alpha_h to beta - alpha_h in [-pi/2, pi/2] changed: %s" % why, key="R7|alpha_h")
 
     # ---- R8 CKM enters the up-type Yukawa matrices as V^dagger ------------------------------------------
